@@ -424,18 +424,39 @@ def verify_unit(name, timeout=600, rlimit=None, known=()):
     return res
 
 
-def vacuity_check(name, timeout=600):
-    """every function under contract must FAIL when `assert(false)` is put at the top of its body"""
+def vacuity_check(name, timeout=900):
+    """every function under contract must FAIL when `assert(false)` is put at the top of its body.
+    refuted = the probe assertion fails (precondition satisfiable as far as the solver can tell);
+    vacuous = the function verifies with the probe in place (contradictory precondition);
+    inconclusive = the solver ran out of resources on the probe (recorded, not counted either way)."""
     unit = Unit(name)
     path, marks = write_unit(unit, name + '_vacuity.rs', vacuity=True)
+    _, _, _, fns = scan_obligations(unit)
     r = run_verus(path, timeout=timeout)
     base = os.path.basename(path)
-    hit = set()
+    hit, resource_fns = set(), set()
+    if any(d.get('level') == 'error' and re.search(RESOURCE, d.get('message', ''), re.I) for d in r['diags']):
+        r = run_verus(path, timeout=1500, rlimit=100)      # inconclusive probes are retried once with a 10x budget
     for d in r['diags']:
-        if d.get('level') != 'error' or 'assertion failed' not in d.get('message', ''):
+        if d.get('level') != 'error':
             continue
-        for s in d.get('spans', []):
-            if os.path.basename(s.get('file_name', '')) == base and s['line_start'] in marks:
-                hit.add(s['line_start'])
-    missing = [marks[l] for l in marks if l not in hit]
-    return dict(probes=len(marks), refuted=len(hit), vacuous=missing, wall=r['wall'], cmd=r['cmd'])
+        msg = d.get('message', '')
+        for s_ in d.get('spans', []):
+            if os.path.basename(s_.get('file_name', '')) != base:
+                continue
+            if 'assertion failed' in msg and s_['line_start'] in marks:
+                hit.add(s_['line_start'])
+            if re.search(RESOURCE, msg, re.I):
+                for f in fns:
+                    if f['start'] <= s_['line_start'] <= f['end']:
+                        resource_fns.add(f['name'])
+    tool_ok = r['json'] is not None and (r['json'].get('verification-results') is not None)
+    vacuous, inconclusive = [], []
+    for l, fname in marks.items():
+        if l in hit:
+            continue
+        if fname in resource_fns or not tool_ok:
+            inconclusive.append(fname)
+        else:
+            vacuous.append(fname)
+    return dict(probes=len(marks), refuted=len(hit), vacuous=vacuous, inconclusive=inconclusive, wall=r['wall'], cmd=r['cmd'])
